@@ -371,6 +371,27 @@ fn settings_files(a: &mut Acc, r: &mut Rng, root: &std::path::Path, n_mut: u64) 
         });
         a.local.distinct_by_construction += 1;
     } }
+    // client-random patterns: every combination of prefix and mask lengths (equal, shorter, longer, empty, odd, oversize),
+    // loaded from a rules file and then evaluated against randoms that match, partly match, are short or absent
+    std::fs::write(&cred, "[[client]]\nusername = \"u\"\npassword = \"p\"\n").unwrap();
+    let hexes = ["", "a", "a0", "a0b0", "a0b0c0", "A0B0", &"ab".repeat(32), &"ab".repeat(33), "zz"];
+    let masks: Vec<Option<&str>> = vec![None, Some(""), Some("f"), Some("f0"), Some("f0f0"), Some("f0f0ff"), Some("00"), Some("ffffffffff"), Some("zz")];
+    let randoms: Vec<Option<Vec<u8>>> = vec![None, Some(vec![]), Some(vec![0xa5]), Some(vec![0xa5, 0xb5]), Some(vec![0xa5, 0xb5, 0xc5, 0xd5]), Some(vec![0xa0; 32]), Some(vec![0xab; 32]), Some(vec![0; 32]), Some(vec![0xa5; 40])];
+    for hx in hexes { for m in &masks { for cidr in [None, Some("10.0.0.0/8"), Some("junk")] {
+        let pat = match m { None => hx.to_string(), Some(m) => format!("{}/{}", hx, m) };
+        let rf = format!("[[rule]]\n{}client_random_prefix = \"{}\"\naction = \"deny\"\n[[rule]]\naction = \"allow\"\n", cidr.map(|c| format!("cidr = \"{}\"\n", c)).unwrap_or_default(), pat);
+        std::fs::write(&rules, &rf).unwrap();
+        let text = base_settings(&cred.to_string_lossy(), &rules.to_string_lossy());
+        let randoms = randoms.clone();
+        a.case("rules file with a client-random pattern: load + evaluate", rf.as_bytes(), || {
+            if let Ok(s) = toml::from_str::<trusttunnel::settings::Settings>(&text) {
+                if let Some(e) = s.get_rules_engine() {
+                    for ip in ["10.0.0.1", "192.0.2.1", "::1"] { for r in &randoms { let _ = e.evaluate(&ip.parse().unwrap(), r.as_deref()); } }
+                }
+            }
+        });
+        a.local.distinct_by_construction += 1;
+    } } }
     std::fs::write(&cred, "[[client]]\nusername = \"u\"\npassword = \"p\"\n").unwrap();
     std::fs::write(&rules, "").unwrap();
     let base = base_settings(&cred.to_string_lossy(), &rules.to_string_lossy());
